@@ -51,6 +51,9 @@ func CreateODS(
 	eds *rsmt2d.ExtendedDataSquare,
 ) error {
 	verifhook.PointKV("ods.before-create", path)
+	if err := verifhook.Fault("ods.create"); err != nil {
+		return fmt.Errorf("creating ODS file: %w", err)
+	}
 	mod := os.O_RDWR | os.O_CREATE | os.O_EXCL // ensure we fail if already exist
 	f, err := os.OpenFile(path, mod, filePermissions)
 	if err != nil {
